@@ -409,7 +409,7 @@ func (s *session) do(call string, h gnet.Engine) {
 
 func runCase(cs caseSpec) (fails []string, infra string) {
 	s := &session{cs: cs}
-	tl, err := net.Listen("tcp", "127.0.0.1:0")
+	tl, err := net.Listen("tcp4", fx.Host("tcp4")+":0") // this process's own loop-back address: TIME_WAIT remnants do not pile up on one address
 	if err != nil {
 		return nil, err.Error()
 	}
